@@ -456,6 +456,16 @@ def make_array(length, elem, how="Array", member=None):
                     bad.append([x] + [ev[0]] * (n - 1))
         else:
             bad.append([True] * (per * (length if isinstance(length, int) else 1) + (1 if not isinstance(length, int) else -1)))
+        # containers of the wrong shape (sized, but not sequences), long enough to pass any length guard
+        import collections
+
+        n = (length if isinstance(length, int) and length > 0 else 2) * (per if is_bits else 1)
+        bad.append({f"k{i}": (True if is_bits else ev[0]) for i in range(n)})
+        bad.append({f"k{i}": 0 for i in range(n)}.keys())
+        bad.append(frozenset(f"k{i}" for i in range(n)))
+        bad.append(set(range(1000, 1000 + n)) if n > 1 else {None})
+        if not is_bits and einv:
+            bad.append(collections.deque([einv[0]] + [ev[0]] * (n - 1)))
         return bad
 
     label = f"{how}({llabel},{elem.label})"
